@@ -190,15 +190,24 @@ class WebProcessorSession(BaseProcessorSession):
             self._item_session.skip()
 
     @asyncio.coroutine
-    def _process_robots(self):
+    def _process_robots(self, redirect_request: Request=None):
         '''Process robots.txt.
+
+        Args:
+            redirect_request: If given, only robots.txt is consulted for
+                this request, which is the target of a redirect.
 
         Coroutine.
         '''
         try:
-            self._item_session.request = request = self._new_initial_request(with_body=False)
-            verdict, reason = (yield from self._should_fetch_reason_with_robots(
-                request))
+            if redirect_request:
+                verdict = yield from self._fetch_rule.consult_robots_txt(
+                    redirect_request)
+                reason = 'robotstxt'
+            else:
+                self._item_session.request = request = self._new_initial_request(with_body=False)
+                verdict, reason = (yield from self._should_fetch_reason_with_robots(
+                    request))
         except REMOTE_ERRORS as error:
             _logger.error(
                 _('Fetching robots.txt for ‘{url}’ '
@@ -231,6 +240,8 @@ class WebProcessorSession(BaseProcessorSession):
 
         Coroutine.
         '''
+        is_initial_request = True
+
         while not self._web_client_session.done():
             self._item_session.request = self._web_client_session.next_request()
 
@@ -241,6 +252,16 @@ class WebProcessorSession(BaseProcessorSession):
             if not verdict:
                 self._item_session.skip()
                 break
+
+            # The initial request has been checked in process(). A redirect
+            # may lead to a disallowed path or to another origin.
+            if not is_initial_request:
+                ok = yield from self._process_robots(self._item_session.request)
+
+                if not ok:
+                    break
+
+            is_initial_request = False
 
             exit_early, wait_time = yield from self._fetch_one(cast(Request, self._item_session.request))
 
